@@ -17,4 +17,4 @@ def register(group):
     g.append(('gen_Arc_icenteriso', 'Arc.icenteriso', [('self', T.ARC), ('zeta', 'C')], 'C'))
     g.append(('gen_Arc_u1transform', 'Arc.u1transform', [('self', T.ARC), ('z', 'C')], 'C'))
     g.append(('gen_Arc_parameterize', 'Arc._parameterize', [('self', T.ARC)],
-              ('tuple', ['C', 'C', 'R', 'R'])))
+              ('post', '(self.radius, self.center, self.theta, self.delta)', ('tuple', ['C', 'C', 'R', 'R']))))
